@@ -338,6 +338,12 @@ def run(a):
     idx = load_index()
     base_ref = base_refuted(idx)
     tasks = []
+    only = None
+    if a.recheck:
+        # re-evaluate mutants recorded with one of the given statuses (e.g. survived,noticed) against the current contracts
+        sts = set(a.recheck.split(','))
+        prev = json.load(open(a.out or os.path.join(ROOT, 'mutation', 'results.json')))['mutants']
+        only = {(r['file'], r['function'], r['site']) for r in prev if r['status'] in sts}
     for file, qual, hs in plan(idx, a.files, a.funcs, a.max_harnesses):
         src = open(os.path.join(REPO, file)).read()
         fn = function_nodes(ast.parse(src)).get(qual)
@@ -345,6 +351,8 @@ def run(a):
             continue
         for sid, desc, path, fa in mutation_sites(fn):
             if a.ops and not re.search(a.ops, sid):
+                continue
+            if only is not None and (file, qual, sid) not in only:
                 continue
             tasks.append((file, qual, sid, hs, base_ref))
     rnd = random.Random(int(os.environ.get('VERIF_SEED', '0') or 0))
@@ -418,6 +426,7 @@ def main(argv=None):
     ap.add_argument('--jobs', type=int, default=16)
     ap.add_argument('--out')
     ap.add_argument('--merge', action='store_true')
+    ap.add_argument('--recheck', help='comma list of statuses in the results file to re-evaluate')
     ap.add_argument('--props')
     ap.add_argument('--n', type=int, default=24)
     a = ap.parse_args(argv)
